@@ -1,3 +1,4 @@
 SPECIFICATION PMSpec
 INVARIANT Refines
+INVARIANT Emit
 CHECK_DEADLOCK FALSE
